@@ -265,20 +265,24 @@ func Main(prop string, rule string, plan Plan, casesQuick int, corpus [][]string
 	r.Rule = rule
 	r.MaxSamples = 2
 	x := &Runner{R: r, Prop: prop}
-	finish := func() {
+	finish0 := func() {
 		if prop == "C03" {
 			x.LayoutOracle("../lean/.lake/build/bin/drv_c03")
 		}
 		r.Finish()
+	}
+	finish := func() {
+		// the fixed RegisterValidator corpus runs last (its findings have no op lines; those of the cases come first)
+		if prop == "C01" && twinEnabled && twinMode != "settings" {
+			x.ValidatorRegistrationCorpus()
+		}
+		finish0()
 	}
 	if lines := r.ReplayLines(); lines != nil {
 		x.Replay(lines)
 		finish()
 
 		return
-	}
-	if prop == "C01" && twinEnabled {
-		x.ValidatorRegistrationCorpus()
 	}
 	for _, c := range corpus {
 		x.Replay(c)
